@@ -266,7 +266,7 @@ func (r *Run) Finish() int {
 		"seed":        r.Seed,
 		"level":       r.Level,
 		"coverage":    cov,
-		"assumptions": r.assume,
+		"assumptions": append([]string{"the reference semantics in DESIGN.md Appendix C are the intended reading of the property"}, r.assume...),
 		"wall_s":      float64(int(wall*100)) / 100,
 		"violations":  len(r.violations),
 	}
